@@ -11,8 +11,8 @@ typedef talloc<uint8_t> A;
 typedef ds::bloom_filter_alloc<A> S;
 static const u64 SEEDS[3] = { ds::DEFAULT_SEED, 12345, 0x9e3779b97f4a7c15ULL };
 
-enum { V_INIT = 1, V_WWRAP, V_RWRAP, V_DESER, V_COPY, V_DESTROY, V_UPDATE, V_QAU, V_QUERY, V_UNION, V_INTERSECT, V_INVERT, V_RESET, V_BITS, V_SERIALIZE, V_BATCH, V_WRITE_RO, V_N };
-const char* names[] = { "?", "initialize", "writable_wrap", "wrap", "deserialize", "copy", "view_death", "update", "query_and_update", "query", "union_with", "intersect", "invert", "reset", "get_bits_used", "serialize", "batch_update", "write_through_read_only" };
+enum { V_INIT = 1, V_WWRAP, V_RWRAP, V_DESER, V_COPY, V_DESTROY, V_UPDATE, V_QAU, V_QUERY, V_UNION, V_INTERSECT, V_INVERT, V_RESET, V_BITS, V_SERIALIZE, V_BATCH, V_WRITE_RO, V_ASSIGN, V_N };
+const char* names[] = { "?", "initialize", "writable_wrap", "wrap", "deserialize", "copy", "view_death", "update", "query_and_update", "query", "union_with", "intersect", "invert", "reset", "get_bits_used", "serialize", "batch_update", "write_through_read_only", "copy_assign" };
 
 // Bloom's own canonicalisation (bloom_filter.hpp): unsigned integers are zero-extended, signed ones sign-extended, float -> canonical double
 enum BType { B_I64, B_U64, B_I32, B_U32, B_I16, B_U16, B_I8, B_U8, B_DOUBLE, B_FLOAT, B_STRING, B_BYTES, B_NEGZERO, B_NAN, B_EMPTYSTR, B_NTYPES };
@@ -62,7 +62,7 @@ struct C15World: World {
       Step s; unsigned roll = static_cast<unsigned>(rp.below(100)); s.a = static_cast<i64>(rp.below(5)); s.b = static_cast<i64>(rp.below(60)); s.c = static_cast<i64>(rp.below(B_NTYPES));
       if (roll < 18) s.kind = V_UPDATE; else if (roll < 26) s.kind = V_QAU; else if (roll < 34) s.kind = V_QUERY; else if (roll < 40) { s.kind = V_BATCH; s.b = static_cast<i64>(rp.below(5000)); s.c = rp.range(1, 200); }
       else if (roll < 50) s.kind = V_WWRAP; else if (roll < 57) s.kind = V_RWRAP; else if (roll < 63) { s.kind = V_DESER; s.b = static_cast<i64>(rp.below(2)); }
-      else if (roll < 67) { s.kind = V_COPY; s.b = static_cast<i64>(rp.below(5)); }
+      else if (roll < 67) { s.kind = rp.chance(1, 2) ? V_COPY : V_ASSIGN; s.b = static_cast<i64>(rp.below(5)); }
       else if (roll < 76) { s.kind = faults ? V_DESTROY : V_QUERY; if (faults) s.fault = 1; }
       else if (roll < 81) { s.kind = V_UNION; s.b = static_cast<i64>(rp.below(400)); s.c = static_cast<i64>(rp.below(4)); }
       else if (roll < 85) { s.kind = V_INTERSECT; s.b = static_cast<i64>(rp.below(400)); s.c = static_cast<i64>(rp.below(4)); }
@@ -128,6 +128,11 @@ struct C15World: World {
           std::unique_ptr<S> c(new S(*src.f)); BitModel m = model_of(src); const bool shares = src.on_mem; const bool ro = src.read_only;
           v.f = std::move(c); v.on_mem = shares; v.own = m; v.read_only = shares && ro; v.stale = false;
           ctx.require(v.f->is_wrapped() == shares, "C15|copy-wrapped-flag", ""); check_filter(*v.f, model_of(v), "copy-differs-from-source", true); ctx.probe(shares ? "copy_of_memory_view" : "copy_of_owning_filter"); break; }
+        case V_ASSIGN: { View& src = views[static_cast<size_t>(s.b) % views.size()]; if (!src.f || !v.f || &src == &v || (src.on_mem && src.stale)) break;
+          // copy assignment: the target becomes what a copy of the source is (a view of the memory if the source is one, a snapshot otherwise)
+          BitModel m = model_of(src); const bool shares = src.on_mem; const bool ro = src.read_only;
+          *v.f = *src.f; v.on_mem = shares; v.own = m; v.read_only = shares && ro; v.stale = false;
+          check_filter(*v.f, model_of(v), "copy-assigned-filter-differs-from-source", true); ctx.probe("copy_assign"); ctx.nontrivial = true; break; }
         case V_DESTROY: { if (v.f) { v.f.reset(); v.on_mem = false; ctx.fault("view_death"); } break; }
         default: break;
       }
